@@ -153,14 +153,15 @@ class K1(nn.Module):
 class K2(nn.Module):
     """time-axis concat of two searchable convs that must share the masker, then flatten -> Linear"""
 
-    def __init__(self, C=2, cin=1, T=3):
+    def __init__(self, C=2, cin=1, T=3, dim=2):
         super().__init__()
         self.a = nn.Conv1d(cin, C, 1)
         self.b = nn.Conv1d(cin, C, 1)
         self.fc = nn.Linear(C * 2 * T, 2)
+        self.dim = dim
 
     def forward(self, x):
-        y = torch.cat([torch.relu(self.a(x)), torch.relu(self.b(x))], dim=2)
+        y = torch.cat([torch.relu(self.a(x)), torch.relu(self.b(x))], dim=self.dim)
         return self.fc(y.flatten(1))
 
 
